@@ -524,3 +524,65 @@ def facts_at(cfg: CFG, IN: Dict[int, FrozenSet[Fact]], pm: Dict[int, ast.AST], n
     facts = set(IN.get(nid, frozenset()))
     facts |= syntactic_facts(pm, node, owner)
     return facts
+
+
+# ------------------------------------------------------------------------------------------
+# Reaching definitions (may): name -> CFG node ids of the definitions that can reach a node.
+# ------------------------------------------------------------------------------------------
+
+def reaching_defs(cfg: CFG, params: Iterable[str] = ()) -> Dict[int, Dict[str, FrozenSet[int]]]:
+    """IN[node] : name -> frozenset of defining node ids (cfg.entry stands for 'parameter')."""
+    init = {p: frozenset([cfg.entry]) for p in params}
+
+    def transfer(node: Node, label, env):
+        names: Set[str] = set()
+        if node.kind in ('stmt', 'for'):
+            if node.kind == 'for' and label == 'F':
+                return env
+            names = assigned_names(node.ast)
+        elif node.kind == 'cond':
+            names = _walrus(node.ast)
+        elif node.kind == 'handler' and node.ast.name:
+            names = {node.ast.name}
+        if not names:
+            return env
+        new = dict(env)
+        for n in names:
+            new[n] = frozenset([node.id])
+        return new
+
+    def meet(a, b):
+        if a == b:
+            return a
+        out = dict(a)
+        for k, v in b.items():
+            out[k] = out.get(k, frozenset()) | v
+        return out
+
+    return cfg.forward(init, transfer, meet)
+
+
+def def_value(cfg: CFG, def_node: int, name: str) -> Optional[ast.AST]:
+    """The expression assigned to `name` by the plain assignment at def_node (None if the binding
+    is an unpacking, loop target, augmented assignment, parameter ...)."""
+    nd = cfg.nodes[def_node]
+    st = nd.ast
+    if nd.kind == 'stmt' and isinstance(st, ast.Assign):
+        for t in st.targets:
+            if isinstance(t, ast.Name) and t.id == name:
+                return st.value
+    if nd.kind == 'stmt' and isinstance(st, ast.AnnAssign) and isinstance(st.target, ast.Name) \
+            and st.target.id == name:
+        return st.value
+    return None
+
+
+def owner_node(cfg: CFG, pm: Dict[int, ast.AST], node: ast.AST) -> int:
+    """CFG node at which the expression/statement `node` is evaluated."""
+    n = node
+    while True:
+        if id(n) in cfg.expr_cond:
+            return cfg.expr_cond[id(n)]
+        if isinstance(n, ast.stmt):
+            return cfg.node_of(n)
+        n = pm[id(n)]
